@@ -99,12 +99,22 @@ impl Client {
             let helper = inner
                 .clone()
                 .into_helper_thread(move |token| {
+                    #[cfg(sccache_verif)]
+                    verif_trace::emit(if token.is_ok() {
+                        "helper_acquire"
+                    } else {
+                        "helper_error"
+                    });
                     let rt = tokio::runtime::Builder::new_current_thread()
                         .build()
                         .unwrap();
                     rt.block_on(async {
                         if let Some(sender) = rx.next().await {
+                            #[cfg(sccache_verif)]
+                            verif_trace::emit("deliver");
                             drop(sender.send(token));
+                            #[cfg(sccache_verif)]
+                            verif_trace::emit("delivered");
                         }
                     });
                 })
@@ -131,16 +141,107 @@ impl Client {
             _ => return Ok(Acquired { _token: None }),
         };
         let (mytx, myrx) = oneshot::channel();
+        // Serialises [emit, request_token, send] so that the emitted order is the queue order.
+        #[cfg(sccache_verif)]
+        let verif_enq = verif_trace::enqueue("request");
         helper.request_token();
         tx.unbounded_send(mytx).unwrap();
+        #[cfg(sccache_verif)]
+        drop(verif_enq);
+        // Emits "cancel" BEFORE the receiver goes away if this future is dropped while it waits.
+        #[cfg(sccache_verif)]
+        let myrx = verif_trace::CancelOnDrop::new(myrx);
 
         let acquired = myrx
             .await
             .context("jobserver helper panicked")?
             .context("failed to acquire jobserver token")?;
+        #[cfg(sccache_verif)]
+        verif_trace::emit("receive");
 
         Ok(Acquired {
             _token: Some(acquired),
         })
+    }
+}
+
+#[cfg(sccache_verif)]
+impl Client {
+    /// Number of tokens currently in the pipe (verification harness only).
+    pub fn verif_available(&self) -> io::Result<usize> {
+        self.inner.available()
+    }
+}
+
+#[cfg(sccache_verif)]
+impl Drop for Acquired {
+    fn drop(&mut self) {
+        // Runs before the field is dropped, i.e. before the token is written back to the pipe.
+        if self._token.is_some() {
+            verif_trace::emit("release");
+        }
+    }
+}
+
+/// Event callback for the verification harness: where a token is requested, taken from the pipe by the
+/// helper thread, handed over, received, given up.  No behaviour besides calling the installed callback
+/// (and serialising the enqueue step so that the emitted order of requests is the FIFO order).
+#[cfg(sccache_verif)]
+pub mod verif_trace {
+    use std::sync::{Mutex, MutexGuard, OnceLock};
+
+    pub type Hook = Box<dyn Fn(&'static str) + Send + Sync>;
+    static HOOK: OnceLock<Hook> = OnceLock::new();
+    static ENQ: Mutex<()> = Mutex::new(());
+
+    pub fn set_hook(h: Hook) {
+        let _ = HOOK.set(h);
+    }
+
+    pub fn emit(ev: &'static str) {
+        if let Some(h) = HOOK.get() {
+            h(ev)
+        }
+    }
+
+    pub fn enqueue(ev: &'static str) -> MutexGuard<'static, ()> {
+        let g = ENQ.lock().unwrap_or_else(|e| e.into_inner());
+        emit(ev);
+        g
+    }
+
+    /// A receiver that reports "cancel" when it is dropped before it completed.  `Drop::drop` runs before
+    /// the wrapped receiver is dropped, so the event precedes the return of a token sitting in the slot.
+    pub struct CancelOnDrop<R> {
+        rx: R,
+        armed: bool,
+    }
+
+    impl<R> CancelOnDrop<R> {
+        pub fn new(rx: R) -> Self {
+            CancelOnDrop { rx, armed: true }
+        }
+    }
+
+    impl<R: std::future::Future + Unpin> std::future::Future for CancelOnDrop<R> {
+        type Output = R::Output;
+        fn poll(
+            mut self: std::pin::Pin<&mut Self>,
+            cx: &mut std::task::Context<'_>,
+        ) -> std::task::Poll<R::Output> {
+            let res = std::pin::Pin::new(&mut self.rx).poll(cx);
+            if res.is_ready() {
+                self.armed = false;
+            }
+            res
+        }
+    }
+
+    impl<R> Drop for CancelOnDrop<R> {
+        fn drop(&mut self) {
+            if self.armed {
+                emit("cancel");
+            }
+        }
     }
 }
